@@ -7,6 +7,7 @@ Observed = the *sequence* of (target, dependency ids) submissions and the tracke
 Second family: the multi-output / shared-input workflows of C01(b) x backend vectors.
 """
 import fnmatch
+import json
 import itertools
 
 from mc import gwfh
@@ -198,6 +199,44 @@ def wf_batch(acc, batch, ranks=2, sels=(None, ["T0"], ["T1"])):
                                       msg=f"workflow={combo} files={fstate} backend={bv} selection={sel}: {problems[0]}")
 
 
+def cli_batch(acc, batch):
+    """CLI sub-bound: the real `gwf run <selection>` (plugins/run.py incl. its own selection logic) on a simulated Slurm."""
+    from mc import world as W
+
+    for dag, fresh, sel in batch:
+        n = len(dag)
+        descs, files = realise(dag, fresh)
+        wf = W.Workflow([W.T(d["name"], d["_ins"], d["_outs"], spec="echo\n") for d in descs])
+        ranks = {v: i + 1 for i, v in enumerate(sorted(set(files.values())))}
+        wfiles = {p[len(WD) + 1:]: (ranks[v], "x") for p, v in files.items()}
+        w = W.World(wf, files=wfiles, conf={"backend": "slurm"})
+        with W.Session(w) as s:
+            r = s.gwf(["run"] + (sel or []))
+            subs = s.sim.journal_submits()
+            idname = {e["id"]: e["name"] for e in subs}
+        names = [d["name"] for d in descs]
+        pl = P.plan(descs, files, {}, None, roots=sel_roots(sel, names))
+        case = dict(kind="cli", dag=dag, fresh=fresh, sel=sel)
+        problems = []
+        if r.exit_code != 0 or r.crashed():
+            problems.append(f"run failed: {r.exc or r.err_summary()}")
+        got = [e["name"] for e in subs]
+        if sorted(got) != sorted(pl["submitted"]):
+            problems.append(f"submitted {got} expected set {sorted(pl['submitted'])}")
+        else:
+            seen = set()
+            for e in subs:
+                ids = [i for _t, g in (e["deps"] or {"groups": [[]]})["groups"][0] for i in g] if e["deps"] else []
+                depnames = sorted(idname.get(i, "?" + i) for i in ids)
+                if depnames != sorted(pl["prereqs"][e["name"]]) or not set(depnames) <= seen:
+                    problems.append(f"{e['name']} submitted with prerequisites {depnames} (argv {e['argv']}), expected {sorted(pl['prereqs'][e['name']])} submitted earlier")
+                seen.add(e["name"])
+        acc.case(key=json.dumps(case), outcome=f"cli n_submit={len(got)}", sample=case, nontrivial=bool(got))
+        acc.extra["cli_invocations"] += 1
+        if problems:
+            acc.violation(sig=dict(kind="cli", what=problems[0].split(" ")[0]), case=case, observed=problems, msg=f"`gwf run {' '.join(sel or [])}` dag={dag} fresh={fresh}: {problems[:2]}")
+
+
 def run(ctx):
     import mc.checks.c01 as c01
     import mc.checks.c02 as me
@@ -209,6 +248,8 @@ def run(ctx):
     if not quick:
         # n = 4: all 543 labelled DAGs, reduced alphabets (backend states incl. every class, selections default+singletons+pattern)
         ctx.pmap(me, "dag4_batch", all_dags(4), chunk=4)
+    ctx.pmap(me, "cli_batch", [(dag, fresh, sel) for dag in dags for fresh in (("missing",) * 3, ("newer", "older", "missing"), ("newer", "newer", "newer"))
+                               for sel in selections(3, False)], chunk=16)
     ctx.pmap(me, "wf_batch", c01.wf_items(2, 3), ranks=2 if quick else 3, sels=(None, ["T1"]) if quick else (None, ["T0"], ["T1"]))
     ctx.rule = ("case = (labelled DAG, per-target freshness, backend-state vector, selection) or (2-target/3-file workflow, file state, "
                 "backend vector, selection); non-trivial = at least one submission happens")
@@ -258,6 +299,9 @@ def replay(case):
     scratch = worker_scratch("c02")
     acc = Acc()
     c = case
+    if c["kind"] == "cli":
+        cli_batch(acc, [(tuple(tuple(x) for x in c["dag"]), tuple(c["fresh"]), c["sel"])])
+        return acc.violations
     if c["kind"] == "dag":
         dag = tuple(tuple(x) for x in c["dag"])
         descs, files = realise(dag, tuple(c["fresh"]))
